@@ -45,6 +45,13 @@ fn gen(t: Tier, _seed: u64, emit: &mut dyn FnMut(Case)) {
                 }
             }
         }
+        for n in long_lengths(bits) {
+            emit(Case::Owned { cid, n, variant: 3 });
+            for s in [0usize, 1, noff(bits) - 1] {
+                emit(Case::View { cid, n, s, ph: 0, variant: 3 });
+            }
+            emit(Case::View { cid, n, s: 1, ph: noff(bits) / 2 + 1, variant: 3 });
+        }
         for n in ARRAY_NS {
             if n * bits <= 192 {
                 emit(Case::Array { cid, n });
